@@ -41,6 +41,8 @@ var TrustedDoc = map[string]string{
 	"slices.Contains":       "result = mem(s, x)",
 	"slices.Index":          "result = -1 and not mem(s,x), or 0 <= result < len and s[result] = x and no earlier index holds x",
 	"slices.Delete":         "requires 0 <= i <= j <= len; result = s[:i] ++ s[j:]",
+ 	"strings.Split(s, \"\")": "every element is non-empty; an element starting with a byte < 0x80 has length 1",
+	"strings.Join":          "uninterpreted deterministic function of (elements, length, separator)",
 	"fmt.Errorf":            "returns a non-nil error",
 	"errors.New":            "returns a non-nil error",
 	"fmt.Sprintf":           "uninterpreted string result",
@@ -123,6 +125,11 @@ func (ex *Exec) libCall(st *State, fn *ssa.Function, args []Val, pos string) []O
 		ex.AddObl(st, "safety", "safe/slices.Delete@"+pos, pos, g)
 		st.Assume(g)
 		return ret1(st, ex.deleteRange(st, s, i, j))
+	case "strings.Join":
+		ex.trust(name)
+		sl := args[0].(Slice)
+		f := ex.Ctx.Declare("ext_strings.Join", []string{ArrSort(sl.Elem), "Int", "Str"}, "Str")
+		return ret1(st, Str{smt.App(f, sl.Arr, sl.Len, args[1].(Str).T)})
 	case "fmt.Errorf", "errors.New":
 		ex.trust(name)
 		return ret1(st, Err{Nil: smt.False})
@@ -164,7 +171,17 @@ func (ex *Exec) libCall(st *State, fn *ssa.Function, args []Val, pos string) []O
 					fl := ex.Ctx.Declare(fmt.Sprintf("ext_%s_%d_len", name, i), sorts, "Int")
 					ln := smt.App(fl, terms...)
 					st.Assume(smt.Ge(ln, "0"))
-					rets = append(rets, Slice{Arr: smt.App(fa, terms...), Len: ln, Elem: sl.Elem(), B: ex.newBacking()})
+					rs := Slice{Arr: smt.App(fa, terms...), Len: ln, Elem: sl.Elem(), B: ex.newBacking()}
+					if name == "strings.Split" && len(args) == 2 && term(args[1]) == "emptystr" {
+						// Split(s, "") explodes s into UTF-8 sequences: every element is non-empty and
+						// an element that starts with an ASCII byte is that single byte
+						ex.trust("strings.Split(s, \"\")")
+						k := ex.boundName("k")
+						e := smt.Sel(rs.Arr, k)
+						st.Assume(smt.Forall([][2]string{{k, "Int"}}, smt.Imp(smt.And(smt.Le("0", k), smt.Lt(k, ln)),
+							smt.And(smt.Ge(smt.App("slen", e), "1"), smt.Imp(smt.Lt(smt.App("sat", e, "0"), "128"), smt.Eq(smt.App("slen", e), "1")))), e))
+					}
+					rets = append(rets, rs)
 					continue
 				}
 			}
@@ -191,6 +208,7 @@ func (ex *Exec) strCompare(st *State, a, b string) string {
        (=> (< d m) (and (not (= (sat a d) (sat b d))) (= (strcmp a b) (ite (< (sat a d) (sat b d)) (- 1) 1))))
        (=> (= d m) (= (strcmp a b) (ite (< (slen a) (slen b)) (- 1) (ite (> (slen a) (slen b)) 1 0))))))
   :pattern ((strcmp a b))))`)
+		ex.Ctx.AddAxiom("(forall ((a Str) (b Str)) (! (= (= (strcmp a b) 0) (= a b)) :pattern ((strcmp a b))))")
 	}
 	return smt.App(f, a, b)
 }
